@@ -2,6 +2,7 @@ CONSTANTS
     EvoCap = 63
     LastEvo = 63
     UMax = 200
+    RoundKeyUnique = TRUE
     KesAliasPastLast = TRUE
 SPECIFICATION TraceSpec
 POSTCONDITION TraceAccepted
